@@ -909,6 +909,31 @@ def c01_no_abort_after_commit(env, ob):
     return agg
 
 
+@obligation(id="C02.finished_transaction_logs_no_commit", also="C03", funcs="Session::commit_transaction,TransactionLogger::log_commit",
+            bounds="every path of Session::commit_transaction; callees uninterpreted", native="c02_commit_after_rollback_is_not_redone")
+def c02_no_commit_after_abort(env, ob):
+    """The mirror image of C01.finished_transaction_logs_no_abort: COMMIT issued on a session whose transaction already
+    rolled back must not append a COMMIT record behind the ABORT record - recovery (last control record wins) would redo
+    the rolled-back work after the next crash."""
+    state_rx = r"(can_commit|is_active|is_open|is_finished|has_ended|state)$"
+    ctx, f, args, res = explore(env, "tcp/session.rs", "commit_transaction", sig=r"&mut Session\)", inline=dict(LOG_INLINE))
+
+    def bad(path, rv):
+        if path.panics:
+            return None
+        cm = idx(path, RX_COMMIT_REC)
+        if not cm:
+            return None
+        guards = [e for e in path.events[:cm[0]] if callee_is(e, state_rx) and isinstance(e["ret"], Leaf)
+                  and (e["ret"].term in path.pc or f"(not {e['ret'].term})" in path.pc)]
+        if not guards:
+            return ("commit_record_logged_without_checking_that_the_transaction_is_still_open", None)
+        return None
+    if not any(idx(p, RX_COMMIT_REC) for p, rv in res):
+        return result(ob, "inconclusive", reason="vacuity: Session::commit_transaction never logs a Commit record", paths=len(res))
+    return trace_obligation(env, ob, ctx, res, bad, "Session logs a COMMIT record for a transaction that may already have rolled back")
+
+
 @obligation(id="C01.checkpoint_order", also="C13,C09,C08", funcs="<Pager as Write>::flush",
             bounds="every path of the checkpoint (dirty-page loop unrolled once); WAL / file calls uninterpreted",
             native="c01_crash_after_checkpoint_reopens")
@@ -2571,9 +2596,10 @@ def c05_neg_like(env, ob):
 # ---------------------------------------------------------------------------------------------------------------------
 # C16: no arm of the scalar evaluator ends in panic!/todo!/unreachable! for an expression the binder can produce
 # ---------------------------------------------------------------------------------------------------------------------
-EVAL_ARMS_REACHABLE = ["ColumnBinding", "Literal", "BinaryOp", "UnaryOp", "Function", "Aggregate", "Case", "InList", "Between", "IsNull", "Star"]
-# Subquery / Exists / InSubquery are rejected by the binder (checked natively while building: DESIGN.md 9.2), so their
-# todo!() arms are not reachable input of the evaluator and are not reported.
+EVAL_ARMS_REACHABLE = ["ColumnBinding", "Literal", "BinaryOp", "UnaryOp", "Function", "Aggregate", "Case", "InList", "Between", "IsNull", "Star",
+                       "Exists", "Subquery", "InSubquery"]
+# (Subquery / Exists / InSubquery were first left out as "rejected by the binder".  They are not: `WHERE EXISTS (SELECT ..)`,
+# `v IN (SELECT ..)` and `SELECT (SELECT 1)` reach the evaluator, see DESIGN.md corrections log.)
 
 
 @obligation(id="C16.eval_arms_do_not_panic", funcs="ExpressionEvaluator::evaluate (every arm the binder can produce)",
@@ -2603,6 +2629,55 @@ def c16_eval_arms(env, ob):
                       cex={"what": "evaluate() reaches panic!/todo!/unreachable! for BoundExpression::" + ",".join(bad_arms)}, **kw)
     if inc:
         return result(ob, "inconclusive", reason="; ".join(inc)[:300], **kw)
+    return result(ob, "discharged", **kw)
+
+
+@obligation(id="C16.operators_do_not_unwrap_fallible_results", also="C05", funcs="every `next` / `open` of runtime/ops/*.rs",
+            bounds="every path of each operator's next() / open() (loops unrolled once); callees uninterpreted: any of them may "
+                   "return Err", native="c16_predicate_error_in_index_scan")
+def c16_ops_unwrap(env, ob):
+    """A predicate, a cast or a child operator can fail on perfectly legal statements (`WHERE email = 'a' AND LENGTH(age) >
+    1`).  An operator that calls `.expect()` / `.unwrap()` on such a Result turns the error into a panic of the worker
+    thread; the error has to travel up as Err."""
+    bad, inc, total, nq, nfun = [], [], 0, 0, 0
+    for h, s_, e_ in env.mir.funcs:
+        m = re.match(r"^fn (\w+)::<impl at crates/axmos-db/src/runtime/ops/(\w+)\.rs:[^>]*>::(next|open)(?:::\{closure#\d+\})?\(", h)
+        if not m:
+            continue
+        name = f"{m.group(2)}::{m.group(3)}" + ("::{closure}" if "{closure" in h else "")
+        f = mirsmt.Func(h, env.mir.lines[s_ + 1:e_])
+        ctx = mirsmt.Ctx()
+        ex = mirsmt.Executor(env.mir, ctx, models=dict(COMMON_MODELS), loop_bound=1, max_paths=20000)
+        try:
+            res = ex.run(f, [ctx.sym("p%d" % i, t) for i, (n, t) in enumerate(f.params)])
+        except Unsupported as e:
+            inc.append(f"{name}: {str(e)[:80]}")
+            continue
+        nfun += 1
+        total += len(res)
+        qs = []
+        for path, rv in res:
+            for e in path.events:
+                if re.search(r"^Result::<.*>::(expect|unwrap)$", e["callee"]) and e["args"] and isinstance(e["args"][0], Agg):
+                    r = e["args"][0]
+                    if r.name is None:
+                        continue          # a Result this function built itself
+                    qs.append(conj(e.get("pc_prefix", path.pc) + [f"(not (= {r.get_disc().term} {bvconst(0, 64)}))"]))
+        if qs:
+            chk = env.check(ctx, [disj(sorted(set(qs)))])
+            nq += 1
+            if chk[0]["verdict"] == "sat":
+                bad.append(name)
+            elif chk[0]["verdict"] != "unsat":
+                inc.append(f"{name}: {chk[0]['verdict']}")
+    kw = dict(paths=total, queries=nq, events={"functions": nfun})
+    if bad:
+        return result(ob, "violated", failed=[f"fallible_result_unwrapped[{b}]" for b in sorted(set(bad))],
+                      cex={"what": "an operator panics on an Err from a callee", "functions": sorted(set(bad))}, **kw)
+    if inc:
+        return result(ob, "inconclusive", reason="; ".join(inc)[:300], **kw)
+    if nfun < 5:
+        return result(ob, "inconclusive", reason="vacuity: operator functions not found in the dump", **kw)
     return result(ob, "discharged", **kw)
 
 
